@@ -5,33 +5,77 @@ From Coq Require Import QArith Qabs Qround Lqa Sorted Permutation.
 Section Ticks.
 #[local] Open Scope Q_scope.
 
+(* ---- rounding to a nearest integer, whatever is done at exact ties *)
+Lemma round_tie_near rule x : Qabs (x - inject_Z (round_tie rule x)) <= half.
+Proof.
+  unfold round_tie.
+  destruct (Qfloor_bounds x) as [Hlo Hhi].
+  set (f := Qfloor x) in *.
+  destruct (Qcompare (x - inject_Z f) half) eqn:C.
+  - apply Qeq_alt in C.
+    destruct (tie_up rule f).
+    + rewrite inject_Z_plus.
+      assert (E : x - (inject_Z f + inject_Z 1) == - half).
+      { setoid_replace (x - (inject_Z f + inject_Z 1)) with ((x - inject_Z f) - 1) by ring.
+        rewrite C. reflexivity. }
+      rewrite E. rewrite Qabs_opp. apply Qabs_case; intros; [apply Qle_refl | discriminate].
+    + rewrite C. unfold half. apply Qabs_case; intros; [apply Qle_refl | discriminate].
+  - apply Qlt_alt in C. unfold half in *.
+    apply Qabs_case; intros H; lra.
+  - apply Qgt_alt in C. rewrite inject_Z_plus. unfold half in *. change (inject_Z 1) with 1.
+    apply Qabs_case; intros H; lra.
+Qed.
+
+Lemma round_tie_Z rule (k : Z) : round_tie rule (inject_Z k) = k.
+Proof.
+  unfold round_tie. rewrite Qfloor_Z.
+  assert (H : inject_Z k - inject_Z k == 0) by ring.
+  rewrite (Qcompare_comp _ _ H _ _ (Qeq_refl half)). reflexivity.
+Qed.
+
+#[global] Instance round_tie_comp rule : Proper (Qeq ==> eq) (round_tie rule).
+Proof.
+  intros a b E. unfold round_tie.
+  rewrite (Qfloor_comp _ _ E).
+  assert (H : a - inject_Z (Qfloor b) == b - inject_Z (Qfloor b)) by (rewrite E; reflexivity).
+  rewrite (Qcompare_comp _ _ H _ _ (Qeq_refl half)). reflexivity.
+Qed.
+
+(* rule 0 is numpy's rounding, the one Model.C12 (score MIDI) uses *)
+Lemma sec_to_tick_rule0_lemma ppq mpq t : sec_to_tick_r 0 ppq mpq t = sec_to_tick ppq mpq t.
+Proof.
+  unfold sec_to_tick_r, sec_to_tick, round_tie, round_half_even, tie_up. cbn [Z.eqb].
+  destruct (Qcompare _ half); auto.
+  rewrite <- Z.negb_odd. destruct (Z.odd _); reflexivity.
+Qed.
+
 (* ---- seconds <-> ticks *)
-Lemma tick_of_sec_nearest_lemma ppq mpq t :
-  Qabs (inject_Z (1000000 * ppq) * t / inject_Z mpq - inject_Z (sec_to_tick ppq mpq t)) <= 1 # 2.
-Proof. unfold sec_to_tick. apply round_half_even_near. Qed.
+Lemma tick_of_sec_nearest_lemma rule ppq mpq t :
+  Qabs (inject_Z (1000000 * ppq) * t / inject_Z mpq - inject_Z (sec_to_tick_r rule ppq mpq t)) <= 1 # 2.
+Proof. unfold sec_to_tick_r. apply round_tie_near. Qed.
 
 Lemma inject_Z_nonzero z : (z <> 0)%Z -> ~ inject_Z z == 0.
 Proof. intros H C. unfold Qeq in C. cbn [Qnum Qden inject_Z] in C. lia. Qed.
 
-Lemma tick_roundtrip_lemma ppq mpq k :
-  (0 < ppq)%Z -> (0 < mpq)%Z -> sec_to_tick ppq mpq (tick_to_sec ppq mpq k) = k.
+Lemma tick_roundtrip_lemma rule ppq mpq k :
+  (0 < ppq)%Z -> (0 < mpq)%Z -> sec_to_tick_r rule ppq mpq (tick_to_sec ppq mpq k) = k.
 Proof.
-  intros Hp Hm. unfold sec_to_tick, tick_to_sec.
+  intros Hp Hm. unfold sec_to_tick_r, tick_to_sec.
   assert (E : inject_Z (1000000 * ppq) * (inject_Z (mpq * k) / inject_Z (1000000 * ppq)) / inject_Z mpq == inject_Z k).
   { rewrite (inject_Z_mult mpq k). field. split; apply inject_Z_nonzero; lia. }
-  rewrite E. apply round_half_even_Z.
+  rewrite E. apply round_tie_Z.
 Qed.
 
 Lemma inject_Z_pos z : (0 < z)%Z -> 0 < inject_Z z.
 Proof. intros H. unfold Qlt. cbn [Qnum Qden inject_Z]. lia. Qed.
 
-Lemma sec_roundtrip_halftick_lemma ppq mpq s :
+Lemma sec_roundtrip_halftick_lemma rule ppq mpq s :
   (0 < ppq)%Z -> (0 < mpq)%Z ->
-  Qabs (tick_to_sec ppq mpq (sec_to_tick ppq mpq s) - s) <= inject_Z mpq / inject_Z (2 * (1000000 * ppq)).
+  Qabs (tick_to_sec ppq mpq (sec_to_tick_r rule ppq mpq s) - s) <= inject_Z mpq / inject_Z (2 * (1000000 * ppq)).
 Proof.
   intros Hp Hm.
-  pose proof (tick_of_sec_nearest_lemma ppq mpq s) as N.
-  set (k := sec_to_tick ppq mpq s) in *. unfold tick_to_sec.
+  pose proof (tick_of_sec_nearest_lemma rule ppq mpq s) as N.
+  set (k := sec_to_tick_r rule ppq mpq s) in *. unfold tick_to_sec.
   set (K := inject_Z (1000000 * ppq)) in *. set (M := inject_Z mpq) in *.
   assert (HK : 0 < K) by (apply inject_Z_pos; lia).
   assert (HM : 0 < M) by (apply inject_Z_pos; lia).
